@@ -329,6 +329,7 @@ func (en *DefaultEngine) runFirst(ctx context.Context) (bool, error) {
 	}
 	if en.st.MatchFlag(state.FLAG_TERMINATE, true) {
 		// the session is blocked: the first function does not run either, and there is nothing to show
+		en.st.ResetFlag(state.FLAG_DIRTY)
 		en.execd = true
 		return false, nil
 	}
